@@ -9,3 +9,8 @@ import XProofs.Properties.C03
 #print axioms Properties.C03.C03_refresh_same_behaviour
 #print axioms Properties.C03.C03_edges_from_tasks
 #print axioms Properties.C03.C03_like_fresh_manager
+#print axioms Properties.C03.C03_self_check_passes
+#print axioms Properties.C03.C03_one_call_bisimulation
+#print axioms Properties.C03.C03_history_same_outcomes
+#print axioms Properties.C03.C03_history_same_final_state
+#print axioms Properties.C03.C03_fresh_manager_bisimilar
